@@ -189,7 +189,7 @@ Example split_column_repaired_keeps_inv : exists g', split_column g_two_fixed na
 Proof.
   eexists. split; [vm_compute; reflexivity|].
   eapply (split_column_inv g_two_fixed na nd); [exact g_two_fixed_inv| |vm_compute; reflexivity].
-  split; [reflexivity|]. split; [reflexivity|].
+  split; [reflexivity|].
   intros c i0 Hc _ Hi d Hd H3 H1. vm_compute in Hc. inversion Hc; subst c. vm_compute in Hi. inversion Hi; subst i0.
   vm_compute in Hd. destruct Hd as [<-|[]]. vm_compute in H1. intuition discriminate.
 Qed.
